@@ -10,6 +10,7 @@ import (
 
 	"github.com/ozontech/file.d/cfg"
 	"github.com/ozontech/file.d/pipeline/doif"
+	"github.com/ozontech/file.d/xtime"
 	insaneJSON "github.com/ozontech/insane-json"
 
 	"verifharness/internal/hx"
@@ -252,11 +253,25 @@ func (c *c14Ctx) leaf() *c14Rule {
 	case k < 15:
 		l := &c14Rule{Kind: "l", Sel: sel, Path: path, LKind: r.Pick([]string{"b", "b", "a", "i"}),
 			Cmp: r.Pick([]string{"lt", "le", "gt", "ge", "eq", "ne"})}
+		// aim at the comparison boundary: the value the node will compute, give or take one
+		actual := int64(-1)
+		if n := c.root.Dig(c14Strs(path)...); n != nil {
+			switch {
+			case l.LKind == "a" && n.IsArray():
+				actual = int64(len(n.AsArray()))
+			case l.LKind == "i" && (n.IsNumber() || n.IsString()):
+				actual = int64(n.AsInt())
+			case l.LKind == "b" && (n.IsArray() || n.IsObject()):
+				actual = int64(len(n.EncodeToString()))
+			case l.LKind == "b":
+				actual = int64(len(n.AsString()))
+			}
+		}
 		switch {
 		case r.Chance(1, 40):
 			l.IVal = -1
-		case r.Chance(1, 2) && d != nil:
-			l.IVal = int64(len(d) + r.Range(-1, 1))
+		case r.Chance(3, 5) && actual >= 0:
+			l.IVal = actual + int64(r.Range(-1, 1))
 			if l.IVal < 0 {
 				l.IVal = 0
 			}
@@ -273,6 +288,16 @@ func (c *c14Ctx) leaf() *c14Rule {
 		t.Interval = int64(time.Hour) * int64(r.Range(1, 20))
 		t.Shift = c14Pick64(r, []int64{0, 0, 1, -1, int64(time.Hour), -int64(time.Hour), int64(500 * time.Millisecond)})
 		t.CVal = c14Epoch + c14Pick64(r, []int64{0, 0, 1, -1, 123456789, int64(time.Second), -int64(time.Hour), int64(24 * time.Hour)})
+		// aim at the comparison boundary: the field's own timestamp, give or take a nanosecond
+		if n := c.root.Dig(c14Strs(path)...); n != nil && n.IsString() && r.Chance(1, 2) {
+			format, err := xtime.ParseFormatName(t.Fmt)
+			if err != nil {
+				format = t.Fmt
+			}
+			if tm, err := xtime.ParseTime(format, n.AsString()); err == nil && tm.Year() > 1971 && tm.Year() < 2200 {
+				t.CVal = tm.UnixNano() - t.Shift + int64(r.Range(-1, 1))
+			}
+		}
 		if t.Mode == "n" {
 			t.CVal = 0
 		}
@@ -428,7 +453,7 @@ func c14Small(w *bufio.Writer, r *hx.Rng, tier string) {
 			}
 		}
 	} else {
-		for i := 0; i < 150; i++ {
+		for i := 0; i < 1500; i++ {
 			a, b := leaves[r.Intn(len(leaves))], leaves[r.Intn(len(leaves))]
 			emit(&c14Rule{Kind: r.Pick([]string{"and", "or"}), Ops: []*c14Rule{a, b}})
 		}
@@ -552,9 +577,9 @@ func c14MatchSmall(w *bufio.Writer) {
 // ---------------------------------------------------------------- generator
 
 func genC14(w *bufio.Writer, r *hx.Rng, tier string) {
-	nDoIf, nMatch := 4500, 2500
+	nDoIf, nMatch := 40000, 15000
 	if tier == "thorough" {
-		nDoIf, nMatch = 120000, 40000
+		nDoIf, nMatch = 450000, 120000
 	}
 	c14Small(w, r, tier)
 	c14MatchSmall(w)
